@@ -3,7 +3,7 @@
    Method: each generated energy is shown (by unfolding + field) to be a function of invariants of F^T F (bridge lemmas);
    objectivity/isotropy then follow from matrix algebra; the rest state by evaluation; zero stress at rest as a Coquelicot
    derivative along every straight path t |-> t D through H = 0. *)
-From Coq Require Import Reals Lra QArith.
+From Coq Require Import Reals Lra QArith Nsatz.
 From Coquelicot Require Import Coquelicot.
 From OV.base Require Import Num.
 From OV.gen Require Import Gen_TensorMath Gen_LinearElastic Gen_Neohookean Gen_Gent Gen_J2Elastic
@@ -65,10 +65,11 @@ Ltac norm_fun f J :=
   repeat match goal with
   | |- context [f ?x] => tryif constr_eq x J then fail else (replace x with J by field)
   end.
+Lemma Reqb_ne (x a b : R) : x <> 0 -> (if Reqb x 0 then a else b) = b.
+Proof. intros Hx. destruct (Reqb x 0) eqn:E; [apply Reqb_true in E; contradiction | reflexivity]. Qed.
 Ltac kill_eq0 HJ :=
-  repeat match goal with |- context [if Reqb ?x 0 then _ else _] =>
-     let Hc := fresh in destruct (Reqb x 0) eqn:Hc;
-       [apply Reqb_true in Hc; exfalso; apply HJ; (transitivity x; [mnum; ring | exact Hc]) | clear Hc] end.
+  repeat match goal with |- context [if Reqb ?x 0 then ?a else ?b] =>
+     rewrite (Reqb_ne x a b) by (let Hc := fresh in intro Hc; apply HJ; (etransitivity; [|exact Hc]); ring) end.
 
 Lemma rot_invL Q F : rotation Q ->
   mmul (mtr (mmul Q F)) (mmul Q F) = mmul (mtr F) F /\ mdet (mmul Q F) = mdet F /\ mddot (mmul Q F) (mmul Q F) = mddot F F.
@@ -410,7 +411,7 @@ Definition CCe (H G : M) : M := mmul (mtr (mmul (defgrad H) G)) (mmul (defgrad H
 Lemma j2_strain_log_bridge lss eqps Fp H : mdet Fp <> 0 ->
   j2_strain_log lss eqps Fp H = log_strain_of lss (CCe H (tinv Fp)) (JJ H).
 Proof.
-  dm H. dm Fp. unfold log_strain_of, CCe, JJ, mdevm, tinv, t_inv. mnum. intros Hd.
+  dm H. dm Fp. unfold log_strain_of, CCe, JJ, mdevm, tinv. mnum. cbv beta iota zeta delta [t_inv]. mnum. intros Hd.
   sync_arg lss ltac:(f_equal; field; intro Hx; apply Hd; (etransitivity; [|exact Hx]); ring).
   match goal with |- context [lss ?X] => destruct (lss X) end. mnum.
   sync_arg ln ltac:(field).
@@ -428,9 +429,9 @@ Qed.
 Lemma j2_strain_linear_bridge eqps Ep H : j2_strain_linear eqps Ep H = msub (mscal (/ 2) (madd H (mtr H))) Ep.
 Proof. dm H. dm Ep. mnum. f_equal; field. Qed.
 Lemma j2_strain_seth_hill_bridge pw eqps Ep H :
-  j2_strain_seth_hill pw eqps Ep H = msub (mscal 2 (msub (pw (mmul (mtr H) H) (/ 4)) mid)) Ep.
+  j2_strain_seth_hill pw eqps Ep H = msub (mscal 2 (msub (pw (CC H) (/ 4)) mid)) Ep.
 Proof.
-  dm H. dm Ep. mnum.
+  dm H. dm Ep. unfold CC. mnum.
   match goal with |- _ = ?r => match r with context [pw ?X ?m] =>
     repeat match goal with |- context [pw ?x ?n] => tryif constr_eq x X then fail else (replace x with X by (f_equal; field)) end;
     repeat match goal with |- context [pw X ?n] => tryif constr_eq n m then fail else (replace n with m by field) end;
@@ -488,4 +489,158 @@ Proof.
   apply (is_derive_ext (fun t => phi_q d c (mtrace (strain_gl (mscal t D))) (mddot (strain_gl (mscal t D)) (strain_gl (mscal t D))))).
   - intros t. rewrite W_le_bridge. reflexivity.
   - dm D. apply (phi_q_path_derive _ _ _ _ (m00 + m11 + m22)); mnum; try (auto_derive; [trivial | field]); field.
+Qed.
+
+(* ---------- J2 plasticity, elastic regime ---------- *)
+Theorem j2_log_objective lss p eqps Fp Q H : rotation Q -> mdet Fp <> 0 ->
+  E_j2_log lss p eqps Fp (rotL Q H) = E_j2_log lss p eqps Fp H.
+Proof. intros HR Hd. unfold E_j2_log. rewrite !j2_strain_log_bridge, CCe_rotL, JJ_rotL by assumption. reflexivity. Qed.
+Lemma mdet_mid : mdet (@mid R NumR) = 1. Proof. mnum. ring. Qed.
+Theorem j2_log_isotropic_virgin lss p eqps Q H : LogSqrtSpec lss -> rotation Q ->
+  E_j2_log lss p eqps mid (rotR Q H) = E_j2_log lss p eqps mid H.
+Proof.
+  intros HS HR. unfold E_j2_log. rewrite !j2_strain_log_bridge by (rewrite mdet_mid; lra).
+  rewrite tinv_id, !CCe_id, CC_rotR, JJ_rotR by exact HR.
+  rewrite log_strain_of_conj by (first [assumption | apply CC_sym]). apply W_j2_conj. exact HR.
+Qed.
+Theorem j2_log_rest lss p eqps : LogSqrtSpec lss -> E_j2_log lss p eqps mid mzero = 0.
+Proof.
+  intros HS. unfold E_j2_log. rewrite j2_strain_log_bridge by (rewrite mdet_mid; lra).
+  rewrite tinv_id, CCe_id, CC_zero, JJ_zero, log_strain_of_rest by exact HS. apply W_j2_zero.
+Qed.
+Theorem j2_linear_rest p eqps : E_j2_linear p eqps mzero mzero = 0.
+Proof.
+  unfold E_j2_linear. rewrite j2_strain_linear_bridge.
+  replace (msub (mscal (/ 2) (madd mzero (mtr mzero))) mzero) with (@mzero R NumR) by mat_eq. apply W_j2_zero.
+Qed.
+Theorem j2_linear_rest_stress p eqps D : is_derive (fun t => E_j2_linear p eqps mzero (mscal t D)) 0 0.
+Proof.
+  destruct p as [[[[a b] c] d] e]. unfold E_j2_linear.
+  apply (is_derive_ext (fun t => phi_q d c (mtrace (j2_strain_linear eqps mzero (mscal t D)))
+                                       (mddot (j2_strain_linear eqps mzero (mscal t D)) (j2_strain_linear eqps mzero (mscal t D))))).
+  - intros t. rewrite W_j2_bridge. reflexivity.
+  - dm D. apply (phi_q_path_derive _ _ _ _ (m00 + m11 + m22)); mnum; try (auto_derive; [trivial | field]); field.
+Qed.
+(* 'seth hill' kinematics (after the repair of defect F4 in /repo 60fe5f7: C = F^T F): strain (C^(1/4) - I)/(1/2) - Ep *)
+Theorem j2_seth_hill_rest pw p eqps : PowSpec pw -> E_j2_seth_hill pw p eqps mzero mzero = 0.
+Proof.
+  intros HP. unfold E_j2_seth_hill. rewrite j2_strain_seth_hill_bridge, CC_zero, (pw_identity _ HP).
+  replace (msub (mscal 2 (msub mid mid)) mzero) with (@mzero R NumR) by mat_eq. apply W_j2_zero.
+Qed.
+Theorem j2_seth_hill_objective pw p eqps Ep Q H : rotation Q ->
+  E_j2_seth_hill pw p eqps Ep (rotL Q H) = E_j2_seth_hill pw p eqps Ep H.
+Proof. intros HR. unfold E_j2_seth_hill. rewrite !j2_strain_seth_hill_bridge, CC_rotL by exact HR. reflexivity. Qed.
+Lemma msub_mzero_r (A : M) : msub A mzero = A. Proof. dm A. mat_eq. Qed.
+Theorem j2_seth_hill_isotropic_virgin pw p eqps Q H : PowSpec pw -> rotation Q ->
+  E_j2_seth_hill pw p eqps mzero (rotR Q H) = E_j2_seth_hill pw p eqps mzero H.
+Proof.
+  intros HP HR. unfold E_j2_seth_hill. rewrite !j2_strain_seth_hill_bridge, CC_rotR, !msub_mzero_r by exact HR.
+  rewrite (pw_equivariant _ HP) by (first [assumption | apply CC_sym]).
+  rewrite <- (conj_id Q HR) at 1. rewrite <- conj_sub, <- conj_scal. apply W_j2_conj. exact HR.
+Qed.
+(* what the energy of the rest state would be if the strain were built from H^T H (the defect F4 that /repo 60fe5f7 repaired):
+   kept as a regression witness; it is a statement about the formula, not about the current code *)
+Theorem seth_hill_defect_value (pw : M -> R -> M) p : PowSpec pw ->
+  W_j2 p (msub (mscal 2 (msub (pw (mmul (mtr mzero) mzero) (/ 4)) mid)) mzero) = let '(_, _, _, kappa, _) := p in 18 * kappa.
+Proof.
+  intros HP. replace (mmul (mtr mzero) mzero) with (@mzero R NumR) by mat_eq.
+  rewrite (pw_zero _ HP) by lra. rewrite W_j2_bridge. destruct p as [[[[a b] c] d] e]. unfold phi_q. mnum. field.
+Qed.
+
+(* ---------- phase-field threshold model ---------- *)
+Lemma rot_vec_norm Q g0 g1 g2 : rotation Q ->
+  (m00 Q * g0 + m10 Q * g1 + m20 Q * g2) * (m00 Q * g0 + m10 Q * g1 + m20 Q * g2)
+  + (m01 Q * g0 + m11 Q * g1 + m21 Q * g2) * (m01 Q * g0 + m11 Q * g1 + m21 Q * g2)
+  + (m02 Q * g0 + m12 Q * g1 + m22 Q * g2) * (m02 Q * g0 + m12 Q * g1 + m22 Q * g2) = g0 * g0 + g1 * g1 + g2 * g2.
+Proof.
+  intros (_ & H2 & _). dm Q. revert H2. mnum. intros H2. injection H2 as E1 E2 E3 E4 E5 E6 E7 E8 E9.
+  nsatz.
+Qed.
+Theorem pf_log_objective lss p phase g0 g1 g2 Q H : rotation Q ->
+  E_pf_log lss p phase g0 g1 g2 (rotL Q H) = E_pf_log lss p phase g0 g1 g2 H.
+Proof. intros HR. unfold E_pf_log. rewrite !pf_strain_log_bridge, CC_rotL, JJ_rotL by exact HR. reflexivity. Qed.
+(* rotation of the reference configuration: the reference gradient of the phase field rotates too (g -> Q^T g) *)
+Theorem pf_log_isotropic lss p phase g0 g1 g2 Q H : LogSqrtSpec lss -> rotation Q ->
+  E_pf_log lss p phase (m00 Q * g0 + m10 Q * g1 + m20 Q * g2) (m01 Q * g0 + m11 Q * g1 + m21 Q * g2)
+           (m02 Q * g0 + m12 Q * g1 + m22 Q * g2) (rotR Q H) = E_pf_log lss p phase g0 g1 g2 H.
+Proof.
+  intros HS HR. unfold E_pf_log. rewrite !pf_strain_log_bridge, CC_rotR, JJ_rotR by exact HR.
+  rewrite log_strain_of_conj by (first [assumption | apply CC_sym]).
+  rewrite !W_pf_bridge, trace_conj, ddot_conj by exact HR.
+  destruct p as [[[[[a b] c] d] e] f]. unfold phi_pf. rewrite (rot_vec_norm Q g0 g1 g2 HR). reflexivity.
+Qed.
+Theorem pf_log_rest lss p : LogSqrtSpec lss -> E_pf_log lss p 0 0 0 0 mzero = 0.
+Proof.
+  intros HS. unfold E_pf_log. rewrite pf_strain_log_bridge, CC_zero, JJ_zero, log_strain_of_rest by exact HS.
+  rewrite W_pf_bridge. destruct p as [[[[[a b] c] d] e] f]. unfold phi_pf. mnum.
+  destruct (Rlt_dec 0 (0 + 0 + 0)); unfold Rdiv; ring.
+Qed.
+Theorem pf_linear_rest p : E_pf_linear p 0 0 0 0 mzero = 0.
+Proof.
+  unfold E_pf_linear. rewrite pf_strain_linear_bridge.
+  replace (mscal (/ 2) (madd mzero (mtr mzero))) with (@mzero R NumR) by mat_eq.
+  rewrite W_pf_bridge. destruct p as [[[[[a b] c] d] e] f]. unfold phi_pf. mnum.
+  destruct (Rlt_dec 0 (0 + 0 + 0)); unfold Rdiv; ring.
+Qed.
+
+(* ---------- Kirchhoff stress: for an energy w(C) with symmetric S = dw/dC, tau = 2 F S F^T is symmetric ---------- *)
+Theorem kirchhoff_symmetric_form (F S : M) : msym S -> msym (mscal 2 (mmul F (mmul S (mtr F)))).
+Proof. unfold msym. intros HS. dm F. dm S. revert HS. mnum. intros HS. injection HS as E1 E2 E3 E4 E5 E6. subst. f_equal; ring. Qed.
+
+(* ---------- HyperViscoelastic: the complete generated _energy_density (equilibrium + non-equilibrium + dissipation) ---------- *)
+(* the translator's model of np.linalg.inv on 3x3: cofactors / determinant *)
+Definition linv (A : M) : M :=
+  let d := mdet A in
+  mk ((m11 A * m22 A - m12 A * m21 A) / d) ((m02 A * m21 A - m01 A * m22 A) / d) ((m01 A * m12 A - m02 A * m11 A) / d)
+     ((m12 A * m20 A - m10 A * m22 A) / d) ((m00 A * m22 A - m02 A * m20 A) / d) ((m02 A * m10 A - m00 A * m12 A) / d)
+     ((m10 A * m21 A - m11 A * m20 A) / d) ((m01 A * m20 A - m00 A * m21 A) / d) ((m00 A * m11 A - m01 A * m10 A) / d).
+Lemma linv_id : linv mid = mid.
+Proof. unfold linv. mnum. f_equal; field. Qed.
+Definition hv_c (tau dt : R) : R := dt * (1 / (1 + dt / tau)) / tau.
+Definition hv_tail (Gn tau dt a b : R) : R :=
+  (Gn * ((1 - hv_c tau dt) * (1 - hv_c tau dt)) + dt * (Gn * tau * (hv_c tau dt / dt * (hv_c tau dt / dt)))) * (b - a * a / 3).
+Lemma hv_bridge lss p Fv dt H : JJ H <> 0 -> mdet Fv <> 0 -> 0 < dt -> (let '(_, _, _, tau) := p in 0 < tau) ->
+  E_hv lss p Fv dt H =
+  let '(K, G, Gn, tau) := p in let Ee := lss (CCe H (linv Fv)) in
+  psi_adagio K G (I1 H) (JJ H) + hv_tail Gn tau dt (mtrace Ee) (mddot Ee Ee).
+Proof.
+  destruct p as [[[K G] Gn] tau]. dm H. dm Fv.
+  unfold psi_adagio, psi_vol, I1bar, I1, JJ, hv_tail, hv_c, CCe, linv. mnum. intros HJ Hd Hdt Htau.
+  kill_eq0 HJ.
+  sync_arg lss ltac:(f_equal; field; intro Hx; apply Hd; (etransitivity; [|exact Hx]); ring).
+  match goal with |- context [lss ?X] => destruct (lss X) end. mnum.
+  match goal with |- _ = ?r => match r with context [ln ?j] => norm_fun ln j end end.
+  match goal with |- _ = ?r => match r with context [exp ?j] => norm_fun exp j end end.
+  field. repeat split; lra.
+Qed.
+Lemma mtrace_mzero : mtrace (@mzero R NumR) = 0. Proof. mnum. ring. Qed.
+Lemma mddot_mzero : mddot (@mzero R NumR) mzero = 0. Proof. mnum. ring. Qed.
+Lemma hv_tail_zero Gn tau dt : hv_tail Gn tau dt 0 0 = 0.
+Proof. unfold hv_tail. replace (0 - 0 * 0 / 3) with 0 by field. ring. Qed.
+Theorem hv_objective lss p Fv dt Q H : rotation Q -> 0 < JJ H -> mdet Fv <> 0 -> 0 < dt -> (let '(_, _, _, tau) := p in 0 < tau) ->
+  E_hv lss p Fv dt (rotL Q H) = E_hv lss p Fv dt H.
+Proof.
+  intros HR HJ Hd Hdt Htau. rewrite !hv_bridge by (try assumption; inv_rw HR; lra).
+  destruct p as [[[K G] Gn] tau]. inv_rw HR. rewrite CCe_rotL by exact HR. reflexivity.
+Qed.
+Theorem hv_isotropic_virgin lss p dt Q H : LogSqrtSpec lss -> rotation Q -> 0 < JJ H -> 0 < dt -> (let '(_, _, _, tau) := p in 0 < tau) ->
+  E_hv lss p mid dt (rotR Q H) = E_hv lss p mid dt H.
+Proof.
+  intros HS HR HJ Hdt Htau. rewrite !hv_bridge by (try assumption; try (rewrite mdet_mid; lra); inv_rw HR; lra).
+  destruct p as [[[K G] Gn] tau]. inv_rw HR. rewrite linv_id, !CCe_id, CC_rotR by exact HR.
+  cbv zeta. rewrite (lss_equivariant _ HS) by (first [assumption | apply CC_sym]).
+  rewrite trace_conj, ddot_conj by exact HR. reflexivity.
+Qed.
+Theorem hv_rest lss p dt : LogSqrtSpec lss -> 0 < dt -> (let '(_, _, _, tau) := p in 0 < tau) -> E_hv lss p mid dt mzero = 0.
+Proof.
+  intros HS Hdt Htau. rewrite hv_bridge by (try assumption; try (rewrite mdet_mid; lra); rewrite JJ_zero; lra).
+  destruct p as [[[K G] Gn] tau]. rewrite linv_id, CCe_id, CC_zero, I1_zero, JJ_zero, psi_adagio_rest.
+  cbv zeta. rewrite (lss_identity _ HS), mtrace_mzero, mddot_mzero, hv_tail_zero. ring.
+Qed.
+Example nonvacuous_witness :
+  rotation (mk 0 (-1) 0 1 0 0 0 0 1) /\ 0 < JJ (mk (/ 2) (/ 4) 0 0 (/ 3) 0 0 0 0) /\ LogSqrtSpec (fun A => mscal (/ 2) (msub A mid))
+  /\ PowSpec (fun A _ => A) /\ mdet (@mid R NumR) <> 0.
+Proof.
+  split; [apply rotation_example|]. split; [unfold JJ; mnum; lra|]. split; [apply LogSqrtSpec_inhabited|].
+  split; [apply PowSpec_inhabited|]. rewrite mdet_mid. lra.
 Qed.
